@@ -159,6 +159,8 @@ func (c *Collection) DeleteSubDocPaths(
 			return nil, err
 		}
 		e.xattrs = rawXattrs
+		revSeqNo++
+		e.revSeqNo = revSeqNo
 		_, err = txn.Exec(`UPDATE documents SET xattrs=?1, cas=?2, revSeqNo=?3 WHERE collection=?4 AND key=?5`, rawXattrs, newCas, revSeqNo, c.id, key)
 		return e, err
 	})
